@@ -487,7 +487,7 @@ func (p *program) compile(i int, asInit bool, rt int) []byte {
 				a.push(val)
 			}
 			a.pushAddr(dest)
-			a.pushU(0)
+			a.firstArg(o)
 			a.op(vm.ETX)
 			a.afterCall(o.E%5 == 4)
 		case "convert":
@@ -520,7 +520,7 @@ func (p *program) compile(i int, asInit bool, rt int) []byte {
 				a.push(val)
 			}
 			a.pushAddr(dest)
-			a.pushU(0)
+			a.firstArg(o)
 			a.op(vm.CONVERT)
 			a.afterCall(o.E%5 == 4)
 		case "extcall":
@@ -655,4 +655,17 @@ func (p *program) compile(i int, asInit bool, rt int) []byte {
 		p.desc[i] = desc
 	}
 	return a.finish()
+}
+
+// firstArg pushes the first ("gas") argument of ETX / CONVERT, which the operation ignores and whose stack slot it
+// reuses for the status word: contracts conventionally pass GAS or a constant there, so both zero and non-zero are used.
+func (a *asm) firstArg(o tapeOp) {
+	switch (o.A + o.B + o.C) % 3 {
+	case 0:
+		a.pushU(0)
+	case 1:
+		a.op(vm.GAS)
+	default:
+		a.pushU(0xf4235)
+	}
 }
